@@ -40,7 +40,7 @@ def attribute(ev):
         if ev.get("how") == "ctl" and (ev.get("uden", 0) != 0 or ev.get("edge", 0) != 0):
             return "C06"
         return "C14"
-    if e == "Narrow":
+    if e in ("Narrow", "Widen"):
         return "C19"
     if e == "Q":
         return "C13"
